@@ -84,6 +84,10 @@ def retry_unknown(obligations, res, timeout_ms, seeds=(0, 7, 42)):
     todo = [k for k, ob in obligations.items() if not ob.expect_sat and res[k]["status"] == "unknown"]
     if not todo:
         return
+    # retries are for the odd unstable query; when many obligations of a function are open the function has failed
+    # and repeating hundreds of minute-long queries changes nothing
+    if len(todo) > 12:
+        return
     items = []
     for k in todo:
         text = to_smt2(obligations[k])
